@@ -13,7 +13,10 @@ RULE = ("set-up (all subs): 1-5 dimensions (4-5 in ~40%, with few points per dim
         "(distribution, interval) list is a PATTERN over 1-3 distinct entries with repeats in arbitrary positions "
         "([A,A,B,B], [A,B,B,A,C], ...; entries may share the distribution info on different intervals), passed as a list "
         "or, where all infos agree, in the string/tuple short form; every dimension is judged against the distribution "
-        "SPECIFIED for it. weights: each dimension with its distribution (Uniform(a,b), Triangle(a,mid,b), Normal(mu,sigma) on "
+        "SPECIFIED for it. Half of the entries are given in an unusual unit: support / location / scale multiplied by s in "
+        "{1e-15, 1e-12, 1e-9, 1e-6, 1e-3, 1e3, 1e6, 1e9} (per entry different, e.g. Uniform[4e-12, 5e-12]), so that 1D "
+        "intervals get narrower than 1e-12 absolute in ~1/3 of the cases; the moment model is written in the normalised "
+        "coordinate (x - location)/width of each parameter. weights: each dimension with its distribution (Uniform(a,b), Triangle(a,mid,b), Normal(mu,sigma) on "
         "(-inf,inf) or truncated to mu+-k*sigma; the families usable offline) set up through UncertaintyQuantification as "
         "callers do (list of infos, or the string short form), one GlobalTrapezoidalGridWeighted (boundary on/off; off "
         "whenever a Normal is present), per dimension either a refinement tree built with the library's own get_mid_point "
@@ -55,6 +58,9 @@ ASSUMPTIONS = [
     "identities and agree with the combined-moment path to 1e-9 relative",
     "offset/width ratios |a|/(b-a) <= 20 in the regular classes; a separate low-frequency 'far-offset' Triangle class "
     "(ratio 200..2000) exists because the first-moment quadrature loses accuracy there (F-C15b)",
+    "all tolerances of the harness are scale free: probabilities and weights are dimensionless, grid separations and the "
+    "fallback-feasibility bound are relative to the interval / coordinate magnitude, moment tolerances relative to the "
+    "magnitude of the moments; class counters parameter-scale=s, min-interval-width<1e-12",
     "class counters: dims=4+, distinct=k, pattern-with-repeat, pattern-with-late-repeat (a repeated entry whose first "
     "occurrence is not at the index equal to the number of distinct entries before it, e.g. [A,A,B,B])",
 ]
@@ -221,6 +227,28 @@ def pattern_classes(out, specs):
         if keys.count(k) > 1 and keys[r] != k:
             out.cls("pattern-with-late-repeat")
             break
+
+
+def scale_spec(spec, s):
+    """the same distribution in another unit: support / location / scale multiplied by s"""
+    out = dict(spec)
+    if s != 1.0:
+        for k in ("a", "b", "mid", "mu", "sigma"):
+            if k in out:
+                out[k] = out[k] * s
+    out["s"] = s
+    return out
+
+
+def scale_classes(out, specs, grids=None):
+    for s_ in specs:
+        out.cls("parameter-scale=%g" % s_.get("s", 1.0))
+    if grids is not None:
+        w = [y - x for p_ in grids for x, y in zip(p_, p_[1:]) if not (math.isinf(x) or math.isinf(y))]
+        if w and min(w) < 1e-12:
+            out.cls("min-interval-width<1e-12")
+        if w:
+            out.info["min_interval_width"] = -min(w)        # the runner keeps maxima: stored negated
 
 
 def lib_setup(specs, boundary, f=None, string_form=False):
@@ -470,6 +498,7 @@ def run_weights(case):
             nt = True
         out.info["max_points_1d"] = max(out.info.get("max_points_1d", 0), npts)
     out.nontrivial = nt
+    scale_classes(out, specs, grids)
     out.cls("boundary=%s" % boundary, "d=%d" % dim)
     if case.get("far"):
         out.cls("far-offset")
@@ -513,7 +542,9 @@ def run_midpoint(case):
                 x1 = float(m)
     P = ref.prob(x1, x2)
     out.nontrivial = ref.fam != "Uniform" and "mid-primary" in out.classes and P >= 1e-6 and not out.violations
-    out.cls("fam=%s" % ref.fam, "interval=%s" % iv["kind"])
+    out.cls("fam=%s" % ref.fam, "interval=%s" % iv["kind"], "parameter-scale=%g" % specs[d].get("s", 1.0))
+    if not (math.isinf(x1) or math.isinf(x2)) and x2 - x1 < 1e-12:
+        out.cls("min-interval-width<1e-12")
     if math.isinf(x1) or math.isinf(x2):
         out.cls("infinite-end")
     out.info["max_depth"] = depth
@@ -576,7 +607,15 @@ def run_moments(case):
     pattern_classes(out, specs)
     dim = len(specs)
     nb = case["nb"]
-    base = [drive.driver_function(dim, case["fseed"] + 17 * j) for j in range(nb)]
+    # the model is written in the units of its parameters: z_d = (x_d - location_d) / width_d, so that it is equally
+    # "nowhere exact" for a capacitance in Farad and for a parameter of size 1
+    refs0 = [Ref(s_) for s_ in specs]
+    loc = [r.mu if r.fam == "Normal" else r.a for r in refs0]
+    wid = [r.sigma if r.fam == "Normal" else r.b - r.a for r in refs0]
+
+    def in_units(g):
+        return lambda x: g([(x[d] - loc[d]) / wid[d] for d in range(dim)])
+    base = [in_units(drive.driver_function(dim, case["fseed"] + 17 * j)) for j in range(nb)]
     comps = list(base)
     affine = []
     for k, (c, e) in enumerate(case["affine"]):
@@ -641,6 +680,7 @@ def run_moments(case):
             raise
         out.bad(sub + SIG_FIRST_MOMENT, why)
         out.cls("negative-weight-assertion")
+        scale_classes(out, specs)
         return out
     finally:
         del grid.set_grid
@@ -658,6 +698,7 @@ def run_moments(case):
                 out.bad(sub + "/nodes-and-weights-path/differs-from-combined-moments",
                         "E %s vs %s ; Var %s vs %s" % (E, Ea, V, Va))
     npts = [len(drive.dw_points(sa, d)) for d in range(dim)]
+    scale_classes(out, specs, [[float(x) for x in drive.dw_points(sa, d)] for d in range(dim)])
     nonuni = any(refs[d].fam != "Uniform" and npts[d] >= 6 for d in range(dim))
     out.nontrivial = st_["strict"] >= 1 and nonuni
     for r in refs:
@@ -714,6 +755,7 @@ def draw_spec(draw, boundary, prev, far=False):
 
 
 DIM_CHOICES = [1, 2, 2, 3, 3, 3, 4, 4, 4, 5]
+SCALES = [1e-15, 1e-12, 1e-12, 1e-9, 1e-9, 1e-6, 1e-3, 1e3, 1e6, 1e9]
 
 
 def draw_dims(draw, maxdim, far=False):
@@ -722,11 +764,25 @@ def draw_dims(draw, maxdim, far=False):
     dim = draw(st.sampled_from([x for x in DIM_CHOICES if x <= maxdim]))
     boundary = draw(st.booleans())
     k = draw(st.integers(1, min(3, dim))) if dim <= 3 else draw(st.sampled_from([1, 2, 2, 2, 3, 3]))
-    entries = []
+    raw, scales = [], []
     for _ in range(k):
-        e = draw_spec(draw, boundary, entries, far=far)
-        if all(spec_key(e) != spec_key(x) for x in entries):
-            entries.append(e)
+        e = draw_spec(draw, boundary, raw, far=far)
+        if any(spec_key(e) == spec_key(x) for x in raw):
+            continue
+        # unit of the parameter: half of the entries keep s = 1, the others live at 1e-15 .. 1e9 (per entry different);
+        # an entry that repeats the INFO of an earlier one on another interval (Triangle mode, Normal mu/sigma) keeps
+        # the unit of that entry, otherwise the info would not be the same any more
+        src = [i for i, x in enumerate(raw) if x["fam"] == e["fam"] and e["fam"] != "Uniform"
+               and all(x.get(k_) == e.get(k_) for k_ in ("mid", "mu", "sigma"))]
+        if src:
+            sc = scales[src[-1]]
+        elif draw(st.booleans()):
+            sc = 1.0
+        else:
+            sc = draw(st.sampled_from(SCALES))
+        raw.append(e)
+        scales.append(sc)
+    entries = [scale_spec(e, sc) for e, sc in zip(raw, scales)]
     k = len(entries)
     # every entry occurs at least once, the remaining positions are free, then an arbitrary order
     pattern = list(range(k)) + [draw(st.integers(0, k - 1)) for _ in range(dim - k)]
@@ -870,7 +926,7 @@ def selftest():
 
 
 SUBS = [
-    Sub("weights", weights_strategy, run_weights, dict(quick=1600, thorough=30000), budget_s=dict(quick=20, thorough=200)),
-    Sub("midpoint", midpoint_strategy, run_midpoint, dict(quick=2400, thorough=40000), budget_s=dict(quick=10, thorough=100)),
-    Sub("moments", moments_strategy, run_moments, dict(quick=480, thorough=8000), budget_s=dict(quick=28, thorough=300)),
+    Sub("weights", weights_strategy, run_weights, dict(quick=1600, thorough=30000), budget_s=dict(quick=18, thorough=200)),
+    Sub("midpoint", midpoint_strategy, run_midpoint, dict(quick=2400, thorough=40000), budget_s=dict(quick=8, thorough=100)),
+    Sub("moments", moments_strategy, run_moments, dict(quick=480, thorough=8000), budget_s=dict(quick=26, thorough=300)),
 ]
